@@ -206,7 +206,14 @@ ocp.set_der(v, a)
                 [tau,B] = eval_on_knots(self.xi,dmax-i,subsamples=refine-1)
                 self.B[refine][self.N+d] = B
                 self.tau[refine] = tau
-        self.time[refine] = self.time_grid(self.t0, self.T, self.N*refine)
+        # Each control interval is split in `refine` equal parts (the points the splines are sampled at)
+        time = self.time_grid(self.t0, self.T, self.N)
+        if refine>1:
+            tc = vec(time)
+            fine = tc[:-1] + ca.mtimes(tc[1:]-tc[:-1], DM(list(range(refine))).T/refine)
+            fine = vertcat(vec(fine.T), tc[-1])
+            time = fine.T if time.is_row() and not time.is_column() else fine
+        self.time[refine] = time
 
         # Evaluate spline on the control grid
         for L,chains in self.groups.items():
